@@ -106,6 +106,48 @@ fn cases(tier: Tier) -> &'static Vec<Case> {
                 }
             }
         }
+        // history family: EVERY pipeline of 2..3 (thorough: 4) requests drawn from a small
+        // per-request alphabet, so that the decision for one request is exercised after
+        // every kind of predecessor (a persistence decision must not depend on history)
+        const ATOMS: [(&str, Option<&str>); 8] = [
+            ("1.1", None),
+            ("1.1", Some("keep-alive")),
+            ("1.1", Some("close")),
+            ("1.0", None),
+            ("1.0", Some("keep-alive")),
+            ("1.0", Some("Keep-Alive, foo")),
+            ("1.0", Some("te")),
+            ("1.0", Some("close")),
+        ];
+        let hist_len = if deep(tier) { 4 } else { 3 };
+        for len in 2..=hist_len {
+            let total = ATOMS.len().pow(len as u32);
+            for code in 0..total {
+                let mut c = code;
+                let mut bytes = Vec::new();
+                let mut class = String::from("history");
+                for i in 0..len {
+                    let (ver, cv) = ATOMS[c % ATOMS.len()];
+                    c /= ATOMS.len();
+                    bytes.extend_from_slice(&request(&format!("/h{}", i), ver, cv));
+                    if i + 1 == len {
+                        // class by the first request that ends the connection is computed
+                        // by the reference model at replay time; here: by the last atom
+                        class = format!("history-last-http{}-{}", ver, cv.map(|c| c.to_ascii_lowercase().replace(", ", "+")).unwrap_or_else(|| "absent".into()));
+                    }
+                }
+                for (_, tail) in &tails {
+                    if len == 4 && tail.is_empty() {
+                        continue;
+                    }
+                    for half_close in [false, true] {
+                        let mut b = bytes.clone();
+                        b.extend_from_slice(tail);
+                        v.push(Case { class: class.clone(), bytes: b, half_close, deferred: false });
+                    }
+                }
+            }
+        }
         v
     })
 }
@@ -167,8 +209,8 @@ impl Check for C12 {
     }
     fn rule(&self, tier: Tier) -> String {
         format!(
-            "version {{1.0, 1.1}} x Connection header {:?} at every position of a pipeline of 1..{} requests x following bytes {{nothing, a further complete request, garbage}} x client half-closing afterwards or not x application answering immediately or on a later signal; {} conversations; token-based reference model: requests after the connection-ending one are never delivered, the client sees exactly the answers of the received requests then end-of-stream; otherwise the connection stays open; after a client half-close everything received is answered, then end-of-stream",
-            CONN_VALUES, if full(tier) { 3 } else { 2 }, cases(tier).len()
+            "version {{1.0, 1.1}} x Connection header {:?} at every position of a pipeline of 1..{} requests x following bytes {{nothing, a further complete request, garbage}} x client half-closing afterwards or not x application answering immediately or on a later signal; {} conversations; token-based reference model: requests after the connection-ending one are never delivered, the client sees exactly the answers of the received requests then end-of-stream; otherwise the connection stays open; after a client half-close everything received is answered, then end-of-stream || history family: EVERY pipeline of 2..{} requests over 8 (version, Connection) atoms {{1.1 absent/keep-alive/close, 1.0 absent/keep-alive/'Keep-Alive, foo'/te/close}} x the same following bytes x half-close or not (the decision for a request is exercised after every kind of predecessor)",
+            CONN_VALUES, if deep(tier) { 4 } else { 3 }, cases(tier).len(), if deep(tier) { 4 } else { 3 }
         )
     }
     fn assumptions(&self) -> Vec<String> {
